@@ -13,8 +13,8 @@ from .tlc import MachineryFailure, VERIF
 
 REPO = Path(os.environ.get("VERIF_REPO", "/repo"))
 FINDINGS_FILE = VERIF / "known_findings.json"
-EVIDENCE = VERIF / "evidence"
-REPLAYS = VERIF / "replays"
+EVIDENCE = Path(os.environ.get("VERIF_EVIDENCE_DIR") or VERIF / "evidence")   # redirected by tools/seedtest.py only
+REPLAYS = Path(os.environ.get("VERIF_REPLAYS_DIR") or VERIF / "replays")
 
 
 def load_findings() -> list[dict]:
